@@ -81,7 +81,7 @@ Qed.
 Lemma store_box_inv b s sl f mine_uid (silent : bool) :
   boxinv b -> (forall m, m_uid (f m) = m_uid m) ->
   let b0 := fst (flush b s) in
-  let b1 := fst (resync b0) in
+  let b1 := fst (flush (fst (resync b0)) s) in
   let ms := map_at f sl (b_msgs b1) 1 in
   let b2 := set_msgs b1 ms in
   let b3 := fst (dispatch b2 (Some s) (notes_at sl ms 1 false)) in
@@ -91,8 +91,9 @@ Proof.
   intros Hb Hf b0 b1 ms b2 b3 mine.
   assert (H0 : boxinv b0) by (apply flush_inv; exact Hb).
   assert (C0 : all_s (fun c => c_pend c = []) b0 s) by (apply flush_all_clean; apply Hb).
-  assert (H1 : boxinv b1) by (apply resync_inv; exact H0).
-  assert (N1 : all_s (fun c => forallb is_neutral (c_pend c) = true) b1 s) by (intros c Hin; apply (resync_neutral b0 s C0 c Hin)).
+  assert (H1 : boxinv b1) by (apply flush_inv; apply resync_inv; exact H0).
+  assert (N1 : all_s (fun c => forallb is_neutral (c_pend c) = true) b1 s).
+  { intros c Hin. rewrite (flush_all_clean (fst (resync b0)) s (proj1 (resync_inv b0 H0)) c Hin). reflexivity. }
   assert (Hu : map m_uid ms = uids b1) by (apply map_at_uids; exact Hf).
   assert (H2 : boxinv b2) by (apply set_msgs_same_uids; trivial).
   assert (U2 : uids b2 = map m_uid ms) by reflexivity.
@@ -118,7 +119,7 @@ Qed.
 Lemma fetch_box_inv b s sl k uidc (touch : msg -> msg) chg :
   boxinv b -> (forall m, m_uid (touch m) = m_uid m) ->
   let b0 := fst (flush b s) in
-  let b1 := fst (resync b0) in
+  let b1 := fst (flush (fst (resync b0)) s) in
   let ms := b_msgs b1 in
   let items := flat_map (fun p => match znth ms (p - 1) with
                                   | Some m => match k with
@@ -136,8 +137,9 @@ Proof.
   intros Hb Hf b0 b1 ms items b1' ms' b2 b3.
   assert (H0 : boxinv b0) by (apply flush_inv; exact Hb).
   assert (C0 : all_s (fun c => c_pend c = []) b0 s) by (apply flush_all_clean; apply Hb).
-  assert (H1 : boxinv b1) by (apply resync_inv; exact H0).
-  assert (N1 : all_s (fun c => forallb is_neutral (c_pend c) = true) b1 s) by (intros c Hin; apply (resync_neutral b0 s C0 c Hin)).
+  assert (H1 : boxinv b1) by (apply flush_inv; apply resync_inv; exact H0).
+  assert (N1 : all_s (fun c => forallb is_neutral (c_pend c) = true) b1 s).
+  { intros c Hin. rewrite (flush_all_clean (fst (resync b0)) s (proj1 (resync_inv b0 H0)) c Hin). reflexivity. }
   assert (H1' : boxinv b1').
   { apply deliver_to_issuer_inv; trivial. unfold items, uids. fold ms.
     induction sl as [|p sl IH]; cbn [flat_map]; [constructor|].
@@ -307,28 +309,28 @@ Proof.
     destruct (gate b s uidc true) as [[b0 o0]|] eqn:G; [|exact Hw].
     apply gate_true in G. assert (Hb : boxinv b) by apply (Hw _ _ E).
     assert (H0 : boxinv b0) by (subst b0; apply flush_inv; exact Hb).
-    destruct (admit_set w n b0 uidc set) as [[[b1 o1] sl]|] eqn:A; [|cbn [fst]; apply winv_set_box; trivial].
-    apply admit_set_ok in A.
+    destruct (admit_set w n b0 uidc set) as [[[b1a o1a] sl]|] eqn:A; [|cbn [fst]; apply winv_set_box; trivial].
+    apply admit_set_ok in A. split_pair (flush b1a s) b1 o1b.
     destruct (smem "\Recent" flags || existsb reserved_kw flags).
-    { cbn [fst]. apply winv_set_box; [exact Hw|]. subst b1. apply resync_inv. exact H0. }
+    { cbn [fst]. apply winv_set_box; [exact Hw|]. subst b1 b1a. apply flush_inv. apply resync_inv. exact H0. }
     match goal with |- context [dispatch ?B ?D ?R] => split_pair (dispatch B D R) b3 o2 end.
     cbn [fst]. apply winv_set_box; [exact Hw|].
-    subst b3 b1 b0. apply store_box_inv; [exact Hb|]. intros m0. destruct act; reflexivity.
+    subst b3 b1 b1a b0. apply store_box_inv; [exact Hb|]. intros m0. destruct act; reflexivity.
   - (* OFetch *)
     apply in_mbox_inv; [exact Hw|]. intros n b E. destruct (get_client b s) as [c|]; [|exact Hw].
     destruct (gate b s uidc true) as [[b0 o0]|] eqn:G; [|exact Hw].
     apply gate_true in G. assert (Hb : boxinv b) by apply (Hw _ _ E).
     assert (H0 : boxinv b0) by (subst b0; apply flush_inv; exact Hb).
-    destruct (admit_set w n b0 uidc set) as [[[b1 o1] sl]|] eqn:A; [|cbn [fst]; apply winv_set_box; trivial].
-    apply admit_set_ok in A.
+    destruct (admit_set w n b0 uidc set) as [[[b1a o1a] sl]|] eqn:A; [|cbn [fst]; apply winv_set_box; trivial].
+    apply admit_set_ok in A. split_pair (flush b1a s) b1 o1b.
     match goal with |- context [dispatch ?B ?D ?R] => split_pair (dispatch B D R) b3 o2 end.
     split_pair (flush b3 s) b4 o3. cbn [fst]. apply winv_set_box; [exact Hw|].
-    subst b4 b3 b1 b0. apply fetch_box_inv; [exact Hb|]. intros m0. destruct k; reflexivity.
+    subst b4 b3 b1 b1a b0. apply fetch_box_inv; [exact Hb|]. intros m0. destruct k; reflexivity.
   - (* OSearch *)
     apply in_mbox_inv; [exact Hw|]. intros n b E.
-    destruct (gate b s uidc false) as [[b0 o0]|] eqn:G; [|exact Hw].
-    rewrite admit_is_resync. split_pair (resync b0) b1 o1. cbn [fst].
-    apply winv_set_box; [exact Hw|]. subst b1. apply resync_inv.
+    destruct (gate b s uidc true) as [[b0 o0]|] eqn:G; [|exact Hw].
+    rewrite admit_is_resync. split_pair (resync b0) b1a o1a. split_pair (flush b1a s) b1 o1b. cbn [fst].
+    apply winv_set_box; [exact Hw|]. subst b1 b1a. apply flush_inv. apply resync_inv.
     apply gate_any in G. destruct G as [->| ->]; [apply flush_inv|]; apply (Hw _ _ E).
   - (* OExpunge *)
     apply in_mbox_inv; [exact Hw|]. intros n b E. destruct (get_client b s) as [c|]; [|exact Hw].
